@@ -54,8 +54,7 @@ CASE_TIMEOUT = 30
 FUNCS = ['lag', 'lead', 'diff', 'dlog']
 HELPER_NAMES = ['diff', 'dlog', 'exp', 'lag', 'lead', 'log']
 LEAK_NAMES = ['np', 'copy', 're', 'warnings', 'difflib', '_builtins', 'VectorContainer', 'abs', 'len', 'print']   # globals of fsic/core/containers.py, Python builtins
-SIG15A = 'C16|eval→_resolve_expression_indexes|positional-slice-stop+1'
-SIG15B = 'C16|eval→_resolve_expression_indexes|positional-bracket-ValueError'
+SIG_NEST = 'C16|eval→_resolve_expression_indexes|label-not-alone-in-its-bracket'
 SIG26 = 'C16|diff(x,0)|returns-x-not-zeros'
 SIG_LEAK = 'C16|eval(globals=None)|module-global-visible'
 SIG_LBL = 'C16|eval→_resolve_expression_indexes|label-with-colon-bracket-or-backtick'
@@ -226,9 +225,38 @@ def _attr_err(e):
     return ['raise', 'AttributeError', name, bool(name is not None and m is not None and m.group(1) == name)]
 
 
+def _twice(x, *a, **k):
+    return 2 * x
+
+
+def _first(x, *a, **k):
+    return x[:1]
+
+
+_LOCAL_FUNCS = {'twice': _twice, 'first': _first}
+
+
+def _locals_of(case):
+    """caller-supplied locals of an expr case: [[name, 'arr', hex values] | [name, 'fn', 'twice' | 'first'] | [name, 'num', hex]]"""
+    import numpy as np
+    if not case.get('locals'):
+        return None
+    out = {}
+    for name, kind, payload in case['locals']:
+        if kind == 'arr':
+            out[name] = np.array([lib.unhex(v) for v in payload], dtype=float)
+        elif kind == 'num':
+            out[name] = lib.unhex(payload)
+        else:
+            out[name] = _LOCAL_FUNCS[payload]
+    return out
+
+
 def impl_expr(case):
     c = _container(case)
     expr = case['expr']
+    loc = _locals_of(case)
+    loc_before = None if loc is None else {k: (id(v), v.tobytes() if hasattr(v, 'tobytes') else v) for k, v in loc.items()}
     before, tb = _snapshot(c), _table_snapshot()
     obs = {}
     if case['span']['type'] == 'period':
@@ -254,11 +282,12 @@ def impl_expr(case):
     else:
         obs['text'] = ['ret', expr]
     try:
-        obs['eval'] = _canon(c.eval(expr))
+        obs['eval'] = _canon(c.eval(expr) if loc is None else c.eval(expr, locals=loc))
     except AttributeError as e:
         obs['eval'] = _attr_err(e)
     except Exception as e:
         obs['eval'] = _exc(e)
+    obs['locals_same'] = loc is None or loc_before == {k: (id(v), v.tobytes() if hasattr(v, 'tobytes') else v) for k, v in loc.items()}
     obs['container_same'] = _snapshot(c) == before
     obs['table_same'] = _table_snapshot() == tb and _table_ok()
     return obs
@@ -376,7 +405,7 @@ def _label_text(lab):
 
 def render(ast, rng=None, mode='expr', span=None):
     """AST -> text.  mode 'expr': what the user writes (backticked labels).  mode 'ref': labels replaced by C10's positions
-    (inclusive stops).  mode 'ref15': like 'ref' but every explicit positional stop incremented (the documented defect #15).
+    (inclusive stops).
     Whitespace choices are stored in the AST (so the three renderings agree)."""
     k = ast[0]
     if k == 'var':
@@ -432,8 +461,6 @@ def render_bracket(br, mode, span):
         return '[' + pad(br[1], 0) + ']'
     if k == 'ps':
         a, b, s = br[1], br[2], br[3]
-        if mode == 'ref15' and b is not None:
-            b = str(int(b) + 1)
         parts = [pad('' if a is None else a, 0), pad('' if b is None else b, 1)]
         if s is not None:
             parts.append(pad(s, 2))
@@ -458,7 +485,35 @@ def render_bracket(br, mode, span):
             p = _pos_of(span, lb)
             b = str(p[1] if isinstance(p, tuple) else p + 1)
         return '[' + a + ':' + b + (':' + s if s is not None else '') + ']'
+    if k == 'mx':                          # ('mx', ('L', label) | ('P', text), ('L', label) | ('P', text), w): mixed slice
+        if mode != 'expr':
+            raise _Mixed()
+        def item(x, i):
+            return pad(_label_text(x[1]) if x[0] == 'L' else x[1], i)
+        return '[' + item(br[1], 0) + ':' + item(br[2], 1) + ']'
+    if k == 'lp':                          # ('lp', label, w): the label in parentheses
+        if mode == 'expr':
+            return '[(' + _label_text(br[1]) + ')]'
+        p = _pos_of(span, br[1])
+        return '[(%d)]' % p if not isinstance(p, tuple) else '[(slice(%d, %d))]' % p
+    if k == 'll':                          # ('ll', label, w): the label inside a nested list subscript
+        if mode == 'expr':
+            return '[[' + _label_text(br[1]) + '][0]]'
+        p = _pos_of(span, br[1])
+        return '[[%d][0]]' % p if not isinstance(p, tuple) else '[[slice(%d, %d)][0]]' % p
+    if k == 'lnl':                         # ('lnl', la, lb, w): a label slice broken across lines
+        if mode == 'expr':
+            return '[' + _label_text(br[1]) + ':\n' + _label_text(br[2]) + ']'
+        pa, pb = _pos_of(span, br[1]), _pos_of(span, br[2])
+        return '[%d:%d]' % (pa[0] if isinstance(pa, tuple) else pa, pb[1] if isinstance(pb, tuple) else pb + 1)
     raise AssertionError(br)
+
+
+class _Mixed(Exception):
+    """a slice mixing a label and a plain integer: the statement does not say whether the integer end is inclusive"""
+
+
+NOT_ALONE = ('lp', 'll', 'lnl')
 
 
 def brackets_of(ast):
@@ -505,6 +560,16 @@ def names_of(ast):
 SPECIAL_LABELS = ['a', 'a:b', 'b', 'c]d', 'e[f', 'g`h', ' i ', '`j', '00:30', 'k`']
 
 
+# labels outside Latin-1: outside the Coq model (strings are lists of 8-bit characters); the oracle still speaks, K is skipped
+UNICODE_LABELS = ['\u03b1', '\u03b2\u03b3', '\u5e74', '2000\u5e74', 'caf\u00e9', '\u0446']
+
+
+def _outside_model(case):
+    txt = case.get('expr') if case['kind'] == 'expr' else case.get('s', '')
+    labs = [x for x in case.get('span', {}).get('labels', []) if isinstance(x, str)]
+    return any(ord(ch) > 255 for t in [txt or ''] + labs for ch in t)
+
+
 def _special_label(lab):
     return isinstance(lab, str) and (':' in lab or ']' in lab or lab.startswith('`') or lab.endswith('`') or '\n' in lab)
 
@@ -516,6 +581,12 @@ def labels_of(ast):
             out.append(b[1])
         elif b[0] == 'ls':
             out += [x for x in (b[1], b[2]) if x is not None]
+        elif b[0] in ('lp', 'll'):
+            out.append(b[1])
+        elif b[0] == 'lnl':
+            out += [b[1], b[2]]
+        elif b[0] == 'mx':
+            out += [x[1] for x in (b[1], b[2]) if x[0] == 'L']
     return out
 
 
@@ -530,7 +601,7 @@ def make_span(rng, kind=None):
         return {'kind': kind, 'type': 'range', 'labels': list(range(a, a + n))}
     if kind in ('strlist', 'np_str', 'pd_str'):
         pool = rng.choice([['a', 'b', 'c', 'd', 'e', 'f'], ['x1', 'y 2', 'z-3', 'w', 'v.5', 'u'], ['2000', '2001', '2002', '2003', '2004', '2005'],
-                           ['p', 'q', 'Q1', 'q2', 'r', 's'], SPECIAL_LABELS])
+                           ['p', 'q', 'Q1', 'q2', 'r', 's'], SPECIAL_LABELS, SPECIAL_LABELS, UNICODE_LABELS])
         labs = rng.sample(pool, n)
         return {'kind': kind, 'type': {'strlist': 'list', 'np_str': 'np', 'pd_str': 'pd'}[kind], 'labels': labs}
     if kind in ('intlist', 'np_int', 'pd_int'):
@@ -575,6 +646,16 @@ def gen_bracket(rng, span, n, style):
     use_lab = style == 'lab' or (style == 'mix' and r < 0.5)
     w = _wsq(rng)
     if use_lab:
+        q0 = rng.random()
+        if q0 < 0.05:                                   # a label and a plain integer in one slice
+            lab = ('L', gen_label(rng, span, False))
+            pl = ('P', rng.choice(['', str(rng.randint(-n - 1, n + 1)), str(rng.randint(0, n)), '1-1']))
+            return ('mx', lab, pl, w) if rng.random() < 0.5 else ('mx', pl, lab, w)
+        if q0 < 0.09:                                   # a label that does not stand alone in its bracket (kept finding)
+            kind = rng.choice(NOT_ALONE)
+            if kind == 'lnl':
+                return ('lnl', gen_label(rng, span, False), gen_label(rng, span, False), w)
+            return (kind, gen_label(rng, span, False), w)
         if rng.random() < 0.45:
             return ('li', gen_label(rng, span), w)
         la = gen_label(rng, span) if rng.random() < 0.8 else None
@@ -664,6 +745,17 @@ def make_expr_case(rng, style=None, opts=None):
     case = {'kind': 'expr', 'span': span, 'vars': vars_, 'ast': ast, 'expr': expr, 'style': style}
     if span['type'] == 'period':
         case['probe'] = probe_labels(expr)
+    if opts.get('locals'):
+        # caller locals shadowing a helper AND a variable (and adding a new name) in the same expression
+        used_f = [c[1] for c in calls_of(ast)] or ['lag']
+        used_v = [v for v in names_of(ast) if v in names] or names
+        loc = [[rng.choice(used_f), 'fn', rng.choice(['twice', 'first'])],
+               [rng.choice(used_v), 'arr', [lib.fhex(rng.choice([1.0, -2.0, 0.5]) * (j + 1)) for j in range(n)]]]
+        if rng.random() < 0.5:
+            loc.append([rng.choice(['Q', 'undefined_name', 'W_1', 'np']), 'num', lib.fhex(3.0)])
+        if rng.random() < 0.3:
+            loc.append([rng.choice(['log', 'exp']), 'fn', 'twice'])
+        case['locals'] = loc
     return case
 
 
@@ -854,7 +946,7 @@ def gen(rng, tier):
     n_expr = 3000 if tier == 'quick' else 150000
     for i in range(n_expr):
         r = rng.random()
-        opts = {'undef': r < 0.15, 'd0': 0.15 <= r < 0.2}
+        opts = {'undef': r < 0.15, 'd0': 0.15 <= r < 0.2, 'locals': 0.2 <= r < 0.3}
         if i % 10 == 0:
             opts['span_kind'] = SPAN_KINDS[(i // 10) % len(SPAN_KINDS)]
         cases.append(make_expr_case(rng, None, opts))
@@ -908,6 +1000,7 @@ def _ref_ns(case, zero_identity=False):
           'dlog': lambda x, d=1, *, fill_value=float('nan'): _ref_diff(np.log(_need_1d(x)), d, fill_value=fill_value, zero_identity=zero_identity)}
     for name, vals in case['vars']:
         ns[name] = np.array([lib.unhex(v) for v in vals], dtype=float)
+    ns.update(_locals_of(case) or {})                    # caller-supplied locals override variables, which override the helpers
     return ns
 
 
@@ -917,10 +1010,12 @@ def _ref_eval(case, mode, zero_identity=False):
         text = render(case['ast'], None, mode, case['span'])
     except KeyError:
         return ['raise', 'KeyError']
+    except _Mixed:
+        return ['oos']
     try:
         with warnings.catch_warnings():
             warnings.simplefilter('ignore')
-            return _canon(eval(text, {'__builtins__': {'True': True}}, _ref_ns(case, zero_identity)))
+            return _canon(eval(text, {'__builtins__': {'True': True, 'slice': slice}}, _ref_ns(case, zero_identity)))
     except _OutOfScope:
         return ['oos']
     except NameError as e:
@@ -929,15 +1024,6 @@ def _ref_eval(case, mode, zero_identity=False):
         return ['raise', 'AttributeError', None, False]        # a genuine attribute error of the expression: passes through
     except Exception as e:
         return _exc(e)
-
-
-def _risky(case):
-    """(#15 class) expression contains a backtick and a positional bracket other than a plain integer index / open-stop slice"""
-    brs = brackets_of(case['ast'])
-    has_tick = '`' in case['expr']
-    nonlit = [b for b in brs if b[0] == 'nl' or (b[0] == 'pi' and not re.fullmatch(r'\s*[+-]?\d+\s*', b[1]))]
-    stop = [b for b in brs if b[0] == 'ps' and b[2] is not None]
-    return has_tick, nonlit, stop
 
 
 def _d0(case):
@@ -951,22 +1037,23 @@ def oracle_expr(case, obs, fails):
         bad('C16|eval|container-altered', 'eval(%r) altered the container' % case['expr'])
     if not obs['table_same']:
         bad('C16|eval|helper-table-altered', 'eval(%r) altered fsic.functions.builtins' % case['expr'])
+    if not obs.get('locals_same', True):
+        bad('C16|eval|locals-altered', 'eval(%r) altered the caller\'s locals' % case['expr'])
     got = obs['eval']
     ref = _ref_eval(case, 'ref')
     if got == ref or ref == ['oos']:           # helper applied to something that is not a 1-D array / d < 0: outside the statement
         return
-    has_tick, nonlit, stop = _risky(case)
+    if case['span']['type'] == 'period' and any(l[0] == 'np' for l in case.get('locals') or []) and 'np.int64' in str(obs.get('text')):
+        bad(SIG_LEAK, 'the text written for a slice-valued pandas location (slice(np.int64(a), np.int64(b), None)) relies on the module global '
+            'np being visible to the expression: a caller local named np breaks eval(%r): %s' % (case['expr'], str(got)[:120]))
+        return
     if any(_special_label(x) for x in labels_of(case['ast'])):
         bad(SIG_LBL, 'a backticked label containing a colon / closing bracket / edge backtick is not read as that label: eval(%r) = %s, label indexing gives %s'
             % (case['expr'], str(got)[:120], str(ref)[:120]))
         return
-    if has_tick and nonlit and got[:2] == ['raise', 'ValueError']:
-        bad(SIG15B, 'with a backtick elsewhere in the expression a non-literal positional bracket raises ValueError: %r' % case['expr'])
-        return
-    r15 = _ref_eval(case, 'ref15', _d0(case)) if (has_tick and stop and not nonlit) else None
-    # (r15 == ['oos']: with the shifted stop a helper meets a scalar / 2-D value, on which the statement is silent)
-    if r15 is not None and (got == r15 or r15 == ['oos']):
-        bad(SIG15A, 'with a backtick elsewhere in the expression a positional slice X[a:b] is evaluated as X[a:b+1]: %r' % case['expr'])
+    if any(b[0] in NOT_ALONE for b in brackets_of(case['ast'])):
+        bad(SIG_NEST, 'a backticked label that does not stand alone in its bracket (nested subscript, parentheses, slice broken across lines) is not '
+            'resolved: eval(%r) = %s, the intended meaning gives %s' % (case['expr'], str(got)[:120], str(ref)[:120]))
         return
     if _d0(case) and got == _ref_eval(case, 'ref', True):
         bad(SIG26, 'diff(x, 0) returns x itself where the stated formula x[i] - x[i-0] gives zeros (inside eval: %r)' % case['expr'])
@@ -1105,9 +1192,6 @@ def guard(case, obs):
     k = case['kind']
     if k == 'helper':
         return case['f'] == 'diff' and case['p'] == 0 and not isinstance(case['fill'], dict)
-    if k == 'expr':
-        has_tick, nonlit, stop = _risky(case)
-        return bool(has_tick and (nonlit or stop)) or _d0(case)
     return False
 
 
@@ -1375,6 +1459,8 @@ def correspond(cases, obs, tag, tier):
     idx, lines = [], []
     for i, (c, o) in enumerate(zip(cases, obs)):
         k = c['kind']
+        if k in ('expr', 'text') and _outside_model(c):
+            continue                                     # non Latin-1 text: outside the model
         if k == 'expr':
             lines.append('T\t%s\t%s' % (_span_line(c, o), _hex(c['expr'])))
         elif k == 'text':
